@@ -189,10 +189,26 @@ def refreshDecision (o : WObj) : Except WoErr Bool :=
 /-- `'%.5f' % x` -/
 def fmt5 (x : F64) : Str := Dw.fmtFixed 5 x
 
-/-- the three values `update_start_stop_step()` assigns (las.py:591-602); the outer `none` = unmodelled (the step is
+/-- the three values `update_start_stop_step()` assigns (las.py:593-604); the outer `none` = unmodelled (the step is
 needed and the harness supplied no `index[1] - index[0]`).  An empty or absent index leaves all three `None`
-(IndexError swallowed); STEP stays `None` when the two formatted strings are equal. -/
+(IndexError swallowed); STEP stays `None` for a single sample (`len(self.index) > 1` is the guard since the repair of
+the finding "STEP dropped when STOP prints like STRT"). -/
 def sssValues (sd : Option F64) : Option (List F64) → Option (PVal × PVal × PVal)
+  | none => some (.none, .none, .none)
+  | some [] => some (.none, .none, .none)
+  | some (x :: xs) =>
+    let s := fmt5 x
+    let e := fmt5 (xs.getLastD x)
+    match xs with
+    | [] => some (.str s, .str e, .none)
+    | _ :: _ =>
+      match sd with
+      | some d => some (.str s, .str e, .str (fmt5 d))
+      | none => none
+
+/-- the guard BEFORE the repair (`if STOP != STRT` on the two formatted strings); kept to document the defect
+(`C16_counterexample_old_step_guard`) -/
+def sssValuesOld (sd : Option F64) : Option (List F64) → Option (PVal × PVal × PVal)
   | none => some (.none, .none, .none)
   | some [] => some (.none, .none, .none)
   | some (x :: xs) =>
